@@ -315,26 +315,33 @@ theorem map_rel {α β : Type} (f : α → β) (F F' : α → α) (h : ∀ c c',
       simp only [List.map_cons, List.cons.injEq] at e ⊢
       exact ⟨h a b e.1, ih l2 e.2⟩
 
-def RelOne (m1 m2 : GlyphSet) (f1 : Nat) : Prop :=
-  ∀ f2 rf nested incl base t1 t2 d1 d2, A.κ t1 = A.κ t2 →
+/-- agreement on the names in `S` only -/
+def AgreeOn (S : String → Prop) (m1 m2 : GlyphSet) : Prop :=
+  ∀ n g1 g2, S n → m1.get? n = some g1 → m2.get? n = some g2 → abG A g1 = abG A g2
+
+/-- `S` is closed under the component references of the first glyph set -/
+def ClosedIn (S : String → Prop) (m : GlyphSet) : Prop := ∀ b g, S b → m.get? b = some g → ∀ k ∈ g.comps, S k.base
+
+def RelOne (S : String → Prop) (m1 m2 : GlyphSet) (f1 : Nat) : Prop :=
+  ∀ f2 rf nested incl base t1 t2 d1 d2, S base → A.κ t1 = A.κ t2 →
     addComp f1 m1 rf nested incl base t1 = .ok d1 → addComp f2 m2 rf nested incl base t2 = .ok d2 → abD A d1 = abD A d2
 
-def RelMany (m1 m2 : GlyphSet) (f1 : Nat) : Prop :=
-  ∀ f2 rf nested incl t1 t2 ks1 ks2 d1 d2, A.κ t1 = A.κ t2 → ks1.map (abK A) = ks2.map (abK A) →
+def RelMany (S : String → Prop) (m1 m2 : GlyphSet) (f1 : Nat) : Prop :=
+  ∀ f2 rf nested incl t1 t2 ks1 ks2 d1 d2, (∀ k ∈ ks1, S k.base) → A.κ t1 = A.κ t2 → ks1.map (abK A) = ks2.map (abK A) →
     addComps f1 m1 rf nested incl t1 ks1 = .ok d1 → addComps f2 m2 rf nested incl t2 ks2 = .ok d2 → abD A d1 = abD A d2
 
-theorem relMany_of_one (m1 m2 : GlyphSet) (f1 : Nat) (h1 : RelOne A m1 m2 f1) : RelMany A m1 m2 f1 := by
+theorem relMany_of_one (S : String → Prop) (m1 m2 : GlyphSet) (f1 : Nat) (h1 : RelOne A S m1 m2 f1) : RelMany A S m1 m2 f1 := by
   intro f2 rf nested incl t1 t2 ks1
   induction ks1 with
   | nil =>
-    intro ks2 d1 d2 _ hk e1 e2
+    intro ks2 d1 d2 _ _ hk e1 e2
     cases ks2 with
     | cons b l => simp at hk
     | nil =>
       simp only [addComps, Except.ok.injEq] at e1 e2
       rw [← e1, ← e2]
   | cons k1 ks1 ih =>
-    intro ks2 d1 d2 ht hk e1 e2
+    intro ks2 d1 d2 hS ht hk e1 e2
     cases ks2 with
     | nil => simp at hk
     | cons k2 ks2 =>
@@ -362,14 +369,14 @@ theorem relMany_of_one (m1 m2 : GlyphSet) (f1 : Nat) (h1 : RelOne A m1 m2 f1) : 
               simp only [Except.ok.injEq] at e1 e2
               rw [← e1, ← e2]
               rw [← hb] at ha2
-              have hx := h1 f2 rf nested incl k1.base _ _ x1 x2 (A.κ_compose _ _ _ _ ht hkt) ha1 ha2
-              have hy := ih ks2 y1 y2 ht hks hr1 hr2
+              have hx := h1 f2 rf nested incl k1.base _ _ x1 x2 (hS k1 List.mem_cons_self) (A.κ_compose _ _ _ _ ht hkt) ha1 ha2
+              have hy := ih ks2 y1 y2 (fun k hk => hS k (List.mem_cons_of_mem _ hk)) ht hks hr1 hr2
               simp only [abD, Drawn.append, List.map_append, Prod.mk.injEq] at hx hy ⊢
               exact ⟨A.Γ_append _ _ _ _ hx.1 hy.1, by rw [hx.2, hy.2]⟩
 
-theorem relOne_succ (m1 m2 : GlyphSet) (hag : Agree A m1 m2) (f1 : Nat) (h2 : RelMany A m1 m2 f1) :
-    RelOne A m1 m2 (f1 + 1) := by
-  intro f2 rf nested incl base t1 t2 d1 d2 ht e1 e2
+theorem relOne_succ (S : String → Prop) (m1 m2 : GlyphSet) (hag : AgreeOn A S m1 m2) (hcl : ClosedIn S m1) (f1 : Nat)
+    (h2 : RelMany A S m1 m2 f1) : RelOne A S m1 m2 (f1 + 1) := by
+  intro f2 rf nested incl base t1 t2 d1 d2 hSb ht e1 e2
   cases f2 with
   | zero => simp only [addComp] at e2; cases e2
   | succ f2 =>
@@ -384,7 +391,7 @@ theorem relOne_succ (m1 m2 : GlyphSet) (hag : Agree A m1 m2) (f1 : Nat) (h2 : Re
         | none => rw [hb2] at e2; cases e2
         | some b2 =>
           rw [hb2] at e2; dsimp only at e2
-          have hab := hag base b1 b2 hb1 hb2
+          have hab := hag base b1 b2 hSb hb1 hb2
           simp only [abG, Prod.mk.injEq] at hab
           cases hc1 : addComps f1 m1 rf nested (inclNested nested incl) t1 b1.comps with
           | error e => rw [hc1] at e1; cases e1
@@ -396,7 +403,7 @@ theorem relOne_succ (m1 m2 : GlyphSet) (hag : Agree A m1 m2) (f1 : Nat) (h2 : Re
               rw [hc2] at e2
               simp only [Except.ok.injEq] at e1 e2
               rw [← e1, ← e2]
-              have hx := h2 f2 rf nested _ t1 t2 b1.comps b2.comps x1 x2 ht hab.2 hc1 hc2
+              have hx := h2 f2 rf nested _ t1 t2 b1.comps b2.comps x1 x2 (hcl base b1 hSb hb1) ht hab.2 hc1 hc2
               simp only [abD, Prod.mk.injEq] at hx ⊢
               exact ⟨A.Γ_append _ _ _ _ (A.Γ_draw rf t1 t2 _ _ ht hab.1) hx.1, hx.2⟩
     · rw [if_neg hi] at e1 e2
@@ -404,21 +411,24 @@ theorem relOne_succ (m1 m2 : GlyphSet) (hag : Agree A m1 m2) (f1 : Nat) (h2 : Re
       rw [← e1, ← e2]
       simp only [abD, abK, List.map_cons, List.map_nil, ht]
 
-theorem rel_all (m1 m2 : GlyphSet) (hag : Agree A m1 m2) : ∀ f1, RelOne A m1 m2 f1 ∧ RelMany A m1 m2 f1 := by
+theorem rel_all (S : String → Prop) (m1 m2 : GlyphSet) (hag : AgreeOn A S m1 m2) (hcl : ClosedIn S m1) :
+    ∀ f1, RelOne A S m1 m2 f1 ∧ RelMany A S m1 m2 f1 := by
   intro f1
   induction f1 with
   | zero =>
-    have h0 : RelOne A m1 m2 0 := by
-      intro f2 rf nested incl base t1 t2 d1 d2 _ e1 _; simp only [addComp] at e1; cases e1
-    exact ⟨h0, relMany_of_one A m1 m2 0 h0⟩
+    have h0 : RelOne A S m1 m2 0 := by
+      intro f2 rf nested incl base t1 t2 d1 d2 _ _ e1 _; simp only [addComp] at e1; cases e1
+    exact ⟨h0, relMany_of_one A S m1 m2 0 h0⟩
   | succ n ih =>
-    have h1 := relOne_succ A m1 m2 hag n ih.2
-    exact ⟨h1, relMany_of_one A m1 m2 (n + 1) h1⟩
+    have h1 := relOne_succ A S m1 m2 hag hcl n ih.2
+    exact ⟨h1, relMany_of_one A S m1 m2 (n + 1) h1⟩
 
-/-- **decomposition respects agreement**: in two glyph sets that agree, glyphs that look the same decompose to glyphs
-    that look the same (when both decompositions succeed) -/
-theorem decomposeGlyph_rel (m1 m2 : GlyphSet) (hag : Agree A m1 m2) (nested : Bool) (incl : Option (List String))
-    (g1 g2 g1' g2' : Glyph) (hg : abG A g1 = abG A g2)
+/-- **decomposition respects agreement** — on a set `S` of names that contains the glyph's components' bases and is closed
+    under component references: in two glyph sets that agree on `S`, glyphs that look the same decompose to glyphs that
+    look the same (when both decompositions succeed) -/
+theorem decomposeGlyph_relOn (S : String → Prop) (m1 m2 : GlyphSet) (hag : AgreeOn A S m1 m2) (hcl : ClosedIn S m1)
+    (nested : Bool) (incl : Option (List String))
+    (g1 g2 g1' g2' : Glyph) (hg : abG A g1 = abG A g2) (hgS : ∀ k ∈ g1.comps, S k.base)
     (e1 : decomposeGlyph m1 nested incl g1 = .ok g1') (e2 : decomposeGlyph m2 nested incl g2 = .ok g2') :
     abG A g1' = abG A g2' := by
   unfold decomposeGlyph at e1 e2
@@ -433,9 +443,16 @@ theorem decomposeGlyph_rel (m1 m2 : GlyphSet) (hag : Agree A m1 m2) (nested : Bo
       rw [h2] at e2
       simp only [Except.ok.injEq] at e1 e2
       rw [← e1, ← e2]
-      have hx := (rel_all A m1 m2 hag _).2 _ true nested incl Affine.id Affine.id g1.comps g2.comps d1 d2 rfl hg.2 h1 h2
+      have hx := (rel_all A S m1 m2 hag hcl _).2 _ true nested incl Affine.id Affine.id g1.comps g2.comps d1 d2 hgS rfl hg.2 h1 h2
       simp only [abD, abG, Prod.mk.injEq] at hx ⊢
       exact ⟨A.Γ_append _ _ _ _ hg.1 hx.1, hx.2⟩
+
+theorem decomposeGlyph_rel (m1 m2 : GlyphSet) (hag : Agree A m1 m2) (nested : Bool) (incl : Option (List String))
+    (g1 g2 g1' g2' : Glyph) (hg : abG A g1 = abG A g2)
+    (e1 : decomposeGlyph m1 nested incl g1 = .ok g1') (e2 : decomposeGlyph m2 nested incl g2 = .ok g2') :
+    abG A g1' = abG A g2' :=
+  decomposeGlyph_relOn A (fun _ => True) m1 m2 (fun n g1 g2 _ h1 h2 => hag n g1 g2 h1 h2) (fun _ _ _ _ _ _ => trivial)
+    nested incl g1 g2 g1' g2' hg (fun _ _ => trivial) e1 e2
 
 theorem decomposeOp_rel (nested : Bool) (incl : Option (List String)) : OpRelB (abG A) (decomposeOp nested incl) := by
   intro m1 m2 g1 g2 r1 r2 hag hg e1 e2
